@@ -330,9 +330,11 @@ def r4_7(cx):
 
 
 def r4_8(cx):
-    """what the pending set stands on: the tombstoned ordered map of placeholders (R16.1-R16.4), memberwise clones (R20.3), offsets never truncated (R3.5)"""
+    """what the pending set stands on: the sliding deque under both deques (R15.1-R15.6), the tombstoned ordered map of placeholders (R16.1-R16.4), memberwise clones (R20.3), offsets never truncated (R3.5)"""
     from . import c16, c20, c03
-    compose(cx, [('R16.1', c16.r16_1), ('R16.2', c16.r16_2), ('R16.3', c16.r16_3), ('R16.4', c16.r16_4), ('R20.3', c20.r20_3), ('R3.5', c03.r3_5)])
+    from . import c15
+    compose(cx, [('R15.1', c15.r15_1), ('R15.2', c15.r15_2), ('R15.3', c15.r15_3), ('R15.4', c15.r15_4), ('R15.5', c15.r15_5), ('R15.6', c15.r15_6),
+                 ('R16.1', c16.r16_1), ('R16.2', c16.r16_2), ('R16.3', c16.r16_3), ('R16.4', c16.r16_4), ('R20.3', c20.r20_3), ('R3.5', c03.r3_5)])
 
 
 RULES = [('R4.1', r4_1), ('R4.2', r4_2), ('R4.3', r4_3), ('R4.4', r4_4), ('R4.5', r4_5), ('R4.6', r4_6), ('R4.7', r4_7), ('R4.8', r4_8)]
